@@ -324,7 +324,14 @@ Definition conversion_depth_once : bool :=
 Definition depths_cover_lock_bytes : bool := N.of_nat (length depths) =? max_lockup_byte + 1.
 Definition multiples_ok : bool :=
   (N.of_nat (length multiples) =? max_lockup_byte + 1) &&
-  forallb (fun m => (snd m <=? fst m) && (100000 <=? snd m)) (tl multiples).
+  forallb (fun m => (snd m <=? fst m) && (100000 <=? snd m)) (tl multiples) && (0 <? blocks_per_year).
+
+(* ---------------------------------------------------------------- reward split (pre-fork formula)
+   state_processor.go Process tail: shareReward = blockReward * entropy_i / totalEntropy, and a share
+   whose reward rounds to 0 is paid 1.  Modelled for the bound only; not driven by the harness. *)
+Definition share_reward (R T e : Z) : Z := let s := (R * e / T)%Z in if (s =? 0)%Z then 1%Z else s.
+Definition zsum (l : list Z) : Z := fold_right Z.add 0%Z l.
+Definition split_prefork (R : Z) (es : list Z) : list Z := map (share_reward R (zsum es)) es.
 
 (* ---------------------------------------------------------------- correspondence *)
 
